@@ -10,6 +10,7 @@ import (
 	"sync"
 	"sync/atomic"
 	"time"
+	"verifharness/internal/refmodel"
 
 	"github.com/glebziz/fs_db/pkg/verif"
 
@@ -176,7 +177,12 @@ func judgeReader(c *rt.CaseResult, r *c08Reader, groups map[string][]string, com
 		return false
 	}
 	first := map[string]c08Read{}
-	for _, rd := range r.Reads {
+	for i, rd := range r.Reads {
+		if rd.Class == string(refmodel.NotFound) && strings.HasPrefix(rd.Key, "laz") {
+			// a key that was deleted before the run and is re-created during it: missing = token 0
+			r.Reads[i].Class, r.Reads[i].Tok = "ok", 0
+			rd = r.Reads[i]
+		}
 		if rd.Class != "ok" {
 			return viol("snapshot-read-missing", fmt.Sprintf("reader %d (level %d): Get(%q) in pass %d returned %s although the key always has a value", r.ID, r.Level, rd.Key, rd.Pass, rd.Class))
 		}
@@ -249,15 +255,26 @@ func c08Stress(tier string, seed int64, idx int, scratch string) rt.CaseResult {
 	groups := map[string][]string{}
 	var allKeys []string
 	ng := 1 + rng.Intn(2)
+	wide := idx%4 == 3 // one commit writes 40 keys: a long run of sequence draws / record writes per commit
+	if wide {
+		ng = 1
+	}
 	for g := 0; g < ng; g++ {
 		name := fmt.Sprintf("g%d", g)
-		for k := 0; k < 2+rng.Intn(3); k++ {
-			key := fmt.Sprintf("%s-k%d", name, k)
+		nk := 2 + rng.Intn(3)
+		if wide {
+			nk = 40
+		}
+		for k := 0; k < nk; k++ {
+			key := fmt.Sprintf("%s-k%02d", name, k)
 			groups[name] = append(groups[name], key)
 			allKeys = append(allKeys, key)
 		}
 	}
 	ns := 1 + rng.Intn(2)
+	if wide {
+		ns = 0
+	}
 	for s := 0; s < ns; s++ {
 		name := fmt.Sprintf("solo%d", s)
 		groups[name] = []string{name}
@@ -267,6 +284,22 @@ func c08Stress(tier string, seed int64, idx int, scratch string) rt.CaseResult {
 	for _, k := range allKeys {
 		env.DB.Set(ctxBg, k, tokVal(k, 0))
 	}
+	// keys that exist only as a tombstone when the run starts and are re-created once during it
+	var lazarus []string
+	if !wide {
+		for i := 0; i < 2; i++ {
+			k := fmt.Sprintf("laz%d", i)
+			env.DB.Set(ctxBg, k, []byte("before"))
+			env.DB.Delete(ctxBg, k)
+			lazarus = append(lazarus, k)
+			groups[k] = []string{k}
+		}
+	}
+	readKeys := append(append([]string(nil), allKeys...), lazarus...)
+	if wide {
+		g := groups["g0"]
+		readKeys = []string{g[0], g[len(g)-1]}
+	}
 	tr.Install()
 	defer conc.Uninstall()
 	var stop atomic.Bool
@@ -274,7 +307,24 @@ func c08Stress(tier string, seed int64, idx int, scratch string) rt.CaseResult {
 	var mu sync.Mutex
 	commits := map[string][]c08Commit{}
 	// writers
+	for _, lk := range lazarus {
+		wg.Add(1)
+		go func(k string, delay time.Duration) {
+			defer wg.Done()
+			time.Sleep(delay)
+			cm := c08Commit{N: 1, Call: tr.Now()}
+			if env.DB.Set(ctxBg, k, tokVal(k, 1)) == nil {
+				cm.Ret = tr.Now()
+			}
+			mu.Lock()
+			commits[k] = append(commits[k], cm)
+			mu.Unlock()
+		}(lk, time.Duration(2+rng.Intn(25))*time.Millisecond)
+	}
 	for g, keys := range groups {
+		if strings.HasPrefix(g, "laz") {
+			continue
+		}
 		wg.Add(1)
 		go func(g string, keys []string) {
 			defer wg.Done()
@@ -332,6 +382,9 @@ func c08Stress(tier string, seed int64, idx int, scratch string) rt.CaseResult {
 	// readers
 	nReaders := 3
 	perReader := tierN(tier, 60, 200)
+	if wide {
+		nReaders, perReader = 8, tierN(tier, 600, 1500)
+	}
 	readers := make([][]*c08Reader, nReaders)
 	var rwg sync.WaitGroup
 	for ri := 0; ri < nReaders; ri++ {
@@ -349,10 +402,13 @@ func c08Stress(tier string, seed int64, idx int, scratch string) rt.CaseResult {
 					continue
 				}
 				passes := 2 + lr.Intn(2)
+				if wide {
+					passes = 2
+				}
 				for p := 0; p < passes; p++ {
-					order := lr.Perm(len(allKeys))
+					order := lr.Perm(len(readKeys))
 					for _, ki := range order {
-						k := allKeys[ki]
+						k := readKeys[ki]
 						b, err := tx.Get(ctxBg, k)
 						rd := c08Read{Key: k, Pass: p, Class: string(seqrun.Class(err)), Tok: -1}
 						if err == nil {
@@ -364,12 +420,14 @@ func c08Stress(tier string, seed int64, idx int, scratch string) rt.CaseResult {
 						}
 						r.Reads = append(r.Reads, rd)
 					}
-					ks, err := tx.GetKeys(ctxBg)
-					if err == nil {
-						r.KeyLists = append(r.KeyLists, ks)
-					}
-					if lr.Intn(2) == 0 {
-						time.Sleep(time.Duration(lr.Intn(400)) * time.Microsecond)
+					if !wide { // wide mode: as many Begins per commit as possible
+						ks, err := tx.GetKeys(ctxBg)
+						if err == nil {
+							r.KeyLists = append(r.KeyLists, ks)
+						}
+						if lr.Intn(2) == 0 {
+							time.Sleep(time.Duration(lr.Intn(400)) * time.Microsecond)
+						}
 					}
 				}
 				r.End = tr.Now()
